@@ -122,6 +122,16 @@ def run(chk):
             continue
         scmds.append({"cmd": "eval", "id": len(scmds), "src": arr_term(t, 1)})        # style 1 = the std.slice spelling
         smeta.append([tla_to_py(v) for v in x["den"]])
+        if t["t"].get("op") == "chars":
+            # a string is sliced like the array of its characters (code points), both spellings
+            f = lambda v: "null" if v == 1000 else str(v)  # noqa: E731
+            g = lambda v: "" if v == 1000 else str(v)  # noqa: E731
+            S = common.jstr(common.from_cps(t["t"]["s"]))
+            exp = "".join(tla_to_py(v) for v in x["den"])
+            scmds.append({"cmd": "eval", "id": len(scmds), "src": f"std.slice({S}, {f(t['s'])}, {f(t['e'])}, {f(t['k'])})"})
+            smeta.append(exp)
+            scmds.append({"cmd": "eval", "id": len(scmds), "src": f"{S}[{g(t['s'])}:{g(t['e'])}" + (f":{g(t['k'])}]" if t["k"] != 1000 else "]")})
+            smeta.append(exp)
     for cmd, r, exp in zip(scmds, run_cmds(scmds), smeta):
         chk.count(cmd["src"])
         if not (r["k"] == "val" and common.json_equal(json.loads(r["out"]), exp)):
